@@ -8,7 +8,7 @@
 //   elem <fn> <k>            ... a NULL element in the pointer array at position k
 //   zero <fn> <k> <bits>     ... scalar argument k replaced by the given bit pattern
 //   sqlen <fn>               size query of an array/string-returning function -> `len <n>`
-//   sq <fn> <L> <mode>       size-query protocol: mode = null | short | exact | larger
+//   sq <fn> <L> <mode>       size-query protocol: mode = null | zero | one | short | exact | larger
 //   trace t:op,t:op,...      sequences over threads (see do_trace)
 //   bnd <family> ...         scalar boundary values, C result vs C++ twin
 #include <primitiv/c/api.h>
@@ -318,6 +318,8 @@ static std::string do_sq(const std::vector<std::string> &t) {
   size_t cap;
   if (mode == "short") { if (need == 0) return "na"; cap = need - 1; }
   else if (mode == "exact") cap = need;
+  else if (mode == "zero") cap = 0;                                   // non-NULL buffer, capacity 0
+  else if (mode == "one") { if (need <= 1) return "na"; cap = 1; }    // capacity 1 < required size
   else cap = need + 3;
   // guard zone after the capacity the wrapper is told about
   std::vector<char> buf((cap + 16) * q.es, 0x5a);
